@@ -5,8 +5,8 @@ CONSTANTS
   Profiles <- ProfThorough
   STags <- TagsAll
   OTags <- TagsTwo
-  MaxTagged = 2
-  MaxList = 4
+  MaxTagged <- TaggedThorough
+  MaxList = 3
   ListPool <- PoolThorough
   Texts <- TextsThorough
 INVARIANT BisectIsNearest
